@@ -61,8 +61,19 @@ class FnVerifier(Verifier):
                 vs = [z3.Int(fresh_name(n)) for n in names]
                 s = st.fork()
                 s.raw_index = True
+                kinds = {}
+                for kw in e.keywords:
+                    if kw.arg == 'kinds':         # kinds=dict(d='ref:DFAState'): typed bound variables
+                        kinds = ast.literal_eval(kw.value) if not isinstance(kw.value, ast.Call) else \
+                            {k.arg: k.value.value for k in kw.value.keywords}
                 for n, v in zip(names, vs):
-                    s.env[n] = VInt(v)
+                    kd = kinds.get(n, 'int')
+                    if kd.startswith('ref'):
+                        s.env[n] = VRef(v, kd[4:] or None)
+                    elif kd == 'any':
+                        s.env[n] = VAny(v)
+                    else:
+                        s.env[n] = VInt(v)
                 body = self.ev.truthy(s, self.ev.ev(s, lam.body))
                 pats = []
                 for kw in e.keywords:
@@ -70,7 +81,11 @@ class FnVerifier(Verifier):
                         tv = self.ev.ev(s, kw.value.body)
                         pats.append(tv.t)
                 if pats and f.id == 'forall':
-                    return VBool(z3.ForAll(vs, body, patterns=pats))
+                    pats = [z3.simplify(p_) for p_ in pats]      # array stores at literal indices fold away
+                    try:
+                        return VBool(z3.ForAll(vs, body, patterns=pats))
+                    except z3.Z3Exception:
+                        return VBool(z3.ForAll(vs, body))         # pattern not expressible (if-then-else inside): let z3 choose
                 return VBool(z3.ForAll(vs, body) if f.id == 'forall' else z3.Exists(vs, body))
             if f.id == 'implies':
                 a = self.ev.truthy(st, self.ev.ev(st, e.args[0]))
@@ -173,7 +188,7 @@ class FnVerifier(Verifier):
                                        patterns=[z3.Select(new, l)]))
         if '$len' in st.heap:
             l = z3.Int(fresh_name('l'))
-            st.pc.append(z3.ForAll([l], z3.Select(st.heap['$len'], l) >= 0, patterns=[z3.Select(st.heap['$len'], l)]))
+            st.pc.append(smt.forall([l], z3.Select(st.heap['$len'], l) >= 0, patterns=[z3.Select(st.heap['$len'], l)]))
         if alloc:
             old = st.arr('$alloc', z3.ArraySort(I, B))
             new = z3.Const(fresh_name('H_alloc'), old.sort())
@@ -404,7 +419,7 @@ class FnVerifier(Verifier):
                 st.pc.append(z3.Or(v.t <= 0, st.is_alloc(v.t)))
         l_ = z3.Int('l!len')
         ln0 = st.arr('$len', z3.ArraySort(I, I))
-        st.pc.append(z3.ForAll([l_], z3.Select(ln0, l_) >= 0, patterns=[z3.Select(ln0, l_)]))
+        st.pc.append(smt.forall([l_], z3.Select(ln0, l_) >= 0, patterns=[z3.Select(ln0, l_)]))
         # closed heap: what an allocated list holds is allocated (so fresh objects differ from all stored ones)
         from pv.state import ARR_II
         al = st.arr('$alloc', z3.ArraySort(I, B))
